@@ -130,6 +130,7 @@ def run(ctx):
                 bad.append((c, code, out, err, exp_out, exp_err, ok_model))
         kc.argv_not_utf8_find(ctx, "C18", forest.dir, "starting-point")
         kc.files0_not_utf8(ctx, "C18", forest.dir)
+        operands_besides_the_list(ctx, forest)
         ctx.sample({"kind": cases[0]["kind"], "args": [a.decode("utf-8", "replace") for a in cases[0]["args"]]})
         for c, code, out, err, exp_out, exp_err, ok_model in bad[:3]:
             ctx.violation("find %s%s: exit %s, output %r; expected %s %r%s"
@@ -142,6 +143,24 @@ def run(ctx):
                            "total_disagreements": len(bad)})
     finally:
         forest.close()
+
+
+def operands_besides_the_list(ctx, forest):
+    """a starting point given on the command line is never silently dropped: besides -files0-from it is refused (as GNU does), whether it
+    is spelled "." or anything else; without operands the list alone is walked (no default ".")"""
+    d = os.path.join(forest.dir, b"fl")
+    os.makedirs(os.path.join(d, b"a"))
+    with open(os.path.join(d, b"list"), "wb") as f:
+        f.write(b"a\0")
+    for ops, want_rc, want_out in (([b"."], 1, b""), ([b"a"], 1, b""), ([b"./"], 1, b""), ([], 0, b"a\0")):
+        line = nc.find_line(d, ops + [b"-files0-from", b"list", b"-print0"])
+        code, out, err = wc.decode_find(xc.run_impl([line])[0])
+        ctx.count(("operands-besides-list", tuple(ops)), True, "operands-besides-list")
+        if (code, out) != (want_rc, want_out):
+            ctx.violation("find %s -files0-from list -print0 (list: a): exit %s, printed %r; expected exit %d, %r"
+                          % (b" ".join(ops).decode(), code, out, want_rc, want_out),
+                          {"property": "C18", "kind": "operands-besides-list", "operands": [o.decode() for o in ops], "exit": str(code),
+                           "stdout": out.decode("utf-8", "replace"), "stderr": err.decode("utf-8", "replace")[:200]})
 
 
 def replay(ctx, rep):
